@@ -124,8 +124,6 @@ def evaluate(wm, knobs, plan, ctx):
         if a is None or a["t"] != "f":
             V("source-file-vanished", "%s is gone after the edit run" % p)
             continue
-        if a["mode"] != b["mode"]:
-            V("mode-changed", "%s mode %o -> %o" % (p, b["mode"], a["mode"]))
         ins = core.explain(b["data"], a["data"])
         if ins is None:
             V("not-insert-only", "%s (%d B -> %d B) is not its original content plus reference tokens" % (p, len(b["data"]), len(a["data"])))
